@@ -15,7 +15,7 @@ import ast
 from .. import lin, paths, storewalk, tables
 from ..model import AnalysisError, Project, self_attr, walk_no_nested
 from ..report import Result
-from .common import events_atoms, site, src, sum_lin
+from .common import check_ctor_wiring, events_atoms, site, src, sum_lin
 
 PROP = 'C14'
 LEVEL = 'other'
@@ -43,6 +43,13 @@ def run(p: Project, tier: str) -> Result:
     check_trigger(w, r)
     check_activation(w, r)
     check_transit(w, r)
+    r.ctx = ''
+    r.rule('C14.R7', 'the Fleet hands its configured delay, transit_delay and capacity unchanged to its store', 3)
+    for ci in tables.edge_classes(p):
+        attr, skeys = tables.edge_store_attr(p, ci)
+        if any(k == s.ci.key for k in skeys):
+            check_ctor_wiring(p, r, 'C14.R7', ci, attr, {'delay': 'delay', 'transit_delay': 'transit_delay', 'capacity': 'capacity'},
+                              'the departure timer and the round trip run on the store\'s values: a fleet "leaves after delay, is back after 2·transit_delay" only if they are the configured ones')
     return r
 
 
